@@ -109,9 +109,12 @@ class Engine:
                 except PathAbort:
                     self.aborted += 1
                 except Unsupported as ex:
+                    # an unmodelled construct ends this path only (the run is inconclusive unless another path shows a
+                    # violation); exploration goes on, up to a generous cap
+                    self.n_unsupported = getattr(self, "n_unsupported", 0) + 1
                     if len(self.unsupported) < 20:
                         self.unsupported.append(str(ex)[:300])
-                    if len(self.unsupported) >= 20:
+                    if self.n_unsupported >= 3000:
                         raise Budget("too many unsupported paths")
                 finally:
                     self.s.pop()
